@@ -330,7 +330,9 @@ func C06(r *h.Run) {
 	statusTexts := []string{"", "0", "00", "000", "1", "5", "16", "17", "05", "-1", "+1", "4294967295", "4294967296", "x", " 5", "5 ", "0x5", "1e1"}
 	mkDetails := func(kind string) (string, string) {
 		switch kind {
-		case "absent":
+		case "absent", "announced":
+			// ("announced": the key is in the map with no values, as net/http leaves a trailer
+			// that the Trailer header announced and the peer never sent)
 			return "", "DAbsent"
 		case "badb64":
 			return "!!!not base64", "DInvalid"
@@ -345,7 +347,7 @@ func C06(r *h.Run) {
 		}
 	}
 	for _, st := range statusTexts {
-		for _, dk := range []string{"absent", "badb64", "badproto", "code0", "code9"} {
+		for _, dk := range []string{"absent", "announced", "badb64", "badproto", "code0", "code9"} {
 			dval, dcoq := mkDetails(dk)
 			// (a) trailers-only: status in the HTTP headers
 			for _, proto := range []string{"grpc", "grpcweb"} {
@@ -357,12 +359,18 @@ func C06(r *h.Run) {
 				if dval != "" {
 					hdr["Grpc-Status-Details-Bin"] = []string{dval}
 				}
+				if dk == "announced" {
+					hdr["Grpc-Status-Details-Bin"] = nil
+				}
 				hdr.Set("Grpc-Message", "boom")
 				for _, kind := range []string{"unary", "server"} {
+					in := map[string]any{"proto": proto, "kind": kind, "grpc_status_header": st, "details": dk, "placement": "headers"}
+					// (response validation runs on the library's request goroutine: a panic there cannot be recovered)
+					r.Attempt(h.Failure{Key: "client/hang-or-panic", Family: "grpc_headers", What: "the process died during this call (a panic on the library's request goroutine)", Input: in})
 					res := doCall(cfg, kind, func() *http.Response {
 						return h.NewResponse(200, hdr.Clone(), h.NewChunkBody(nil, h.FinCleanEOF), nil)
 					})
-					in := map[string]any{"proto": proto, "kind": kind, "grpc_status_header": st, "details": dk, "placement": "headers"}
+					r.Survived()
 					r.Eval("grpc_headers", fmt.Sprint(in))
 					if !check("grpc_headers", in, res) {
 						continue
@@ -403,11 +411,16 @@ func C06(r *h.Run) {
 					if dval != "" {
 						trailer["Grpc-Status-Details-Bin"] = []string{dval}
 					}
+					if dk == "announced" {
+						trailer["Grpc-Status-Details-Bin"] = nil
+					}
 				}
+				in := map[string]any{"proto": cfg.Proto, "kind": "server", "grpc_status": st, "details": dk, "placement": "trailers"}
+				r.Attempt(h.Failure{Key: "client/hang-or-panic", Family: "grpc_trailers", What: "the process died during this call", Input: in})
 				res := doCall(cfg, "server", func() *http.Response {
 					return h.NewResponse(200, hdr.Clone(), h.NewChunkBody([][]byte{body}, h.FinCleanEOF), trailer.Clone())
 				})
-				in := map[string]any{"proto": cfg.Proto, "kind": "server", "grpc_status": st, "details": dk, "placement": "trailers"}
+				r.Survived()
 				r.Eval("grpc_trailers", fmt.Sprint(in))
 				if !check("grpc_trailers", in, res) {
 					continue
